@@ -142,7 +142,7 @@ func hxList(bs [][]byte) string {
 	var parts []string
 	for _, b := range bs {
 		if len(b) == 0 {
-			parts = append(parts, "")
+			parts = append(parts, "_")
 		} else {
 			parts = append(parts, hx(b))
 		}
